@@ -220,7 +220,7 @@ theorem normalizeRecipients_ok {H : List Iri} (F : TFacts) (a : J) : LockOK re a
 
 theorem mustHaveActivityActorsMatchObjectActors_ok (F : TFacts) (actors : Option (List J)) (op : List J) (box : Iri) :
     LockOK re aw ad [] (mustHaveActivityActorsMatchObjectActors F actors op box) := by
-  unfold mustHaveActivityActorsMatchObjectActors
+  unfold mustHaveActivityActorsMatchObjectActors undoLoop undoTail undoObjActors undoActorElems
   lk_auto
 
 theorem addLoop_ok (F : TFacts) (opIds : List Iri) (t : Iri) : LockOK re aw ad [] (addLoop F opIds t) := by
